@@ -41,13 +41,20 @@ def _element_expr(fdef):
 
 
 def _exponent_kind(expr):
-    """-> 'position' | 'index' | None : the exponent of the factor  z ** (+-X)"""
+    """-> ('position' | 'index' | None, negated?) : the exponent of the factor  z ** (+-X)"""
     kinds = set()
+    signs = set()
     for node in ast.walk(expr):
-        if isinstance(node, ast.BinOp) and isinstance(node.op, ast.Pow) and isinstance(node.left, ast.Name) and node.left.id == 'z':
+        base = node.left if isinstance(node, ast.BinOp) else None
+        if isinstance(base, ast.Attribute) and base.attr in ('sympy', 'expr', 'var'):     # z.sympy ** (...)
+            base = base.value
+        if isinstance(node, ast.BinOp) and isinstance(node.op, ast.Pow) and isinstance(base, ast.Name) and base.id in ('z', 'zsym'):
             e = node.right
+            neg = False
             if isinstance(e, ast.UnaryOp) and isinstance(e.op, ast.USub):
                 e = e.operand
+                neg = True
+            signs.add(neg)
             if isinstance(e, ast.Name) and e.id == 'ni':
                 kinds.add('position')
             elif (isinstance(e, ast.Subscript) and isinstance(e.value, ast.Attribute) and e.value.attr == 'n'
@@ -56,9 +63,9 @@ def _exponent_kind(expr):
                 kinds.add('index')
             else:
                 kinds.add('other')
-    if len(kinds) == 1 and 'other' not in kinds:
-        return kinds.pop()
-    return None
+    if len(kinds) == 1 and 'other' not in kinds and len(signs) == 1:
+        return kinds.pop(), signs.pop()
+    return None, None
 
 
 def _keeps_indices(fdef):
@@ -91,9 +98,13 @@ def generate(repo, out_path):
                 info['unparsed'].append('%s.%s: no results.append(...) in a loop' % (cls, meth))
             else:
                 text = ast.unparse(e)
-                kind = _exponent_kind(e)
+                kind, neg = _exponent_kind(e)
                 if kind is None:
                     info['unparsed'].append('%s.%s: exponent of z not understood in %s' % (cls, meth, text))
+                elif neg != (key == 'zt'):
+                    # ZT multiplies by z**(-index), IZT by z**(+index); any other sign is not one of the two modelled forms
+                    info['unparsed'].append('%s.%s: unexpected sign of the exponent in %s' % (cls, meth, text))
+                    kind = None
             keeps = _keeps_indices(f)
         res[key] = {'exponent': kind or 'position', 'keeps_indices': keeps, 'source': text, 'line': getattr(f, 'lineno', 0)}
     info.update(res)
